@@ -3,7 +3,10 @@ package main
 // props.go — which rules make up each property (DESIGN §4) and the shared analysis context.
 
 import (
+	"fmt"
+	"runtime"
 	"sort"
+	"strings"
 
 	"golang.org/x/tools/go/ssa"
 )
@@ -33,7 +36,7 @@ func (c *Ctx) rule(name string, f func(*Ctx) *RuleResult) *RuleResult {
 	if r, ok := c.memo[name]; ok {
 		return r
 	}
-	r := f(c)
+	r := safeRule(name, c, f)
 	sort.SliceStable(r.Obs, func(i, j int) bool { return r.Obs[i].Key < r.Obs[j].Key })
 	c.memo[name] = r
 	return r
@@ -78,4 +81,26 @@ var commonAssumptions = []string{
 	"A1: user-supplied code (comparators, Enumerable callbacks, String/MarshalJSON/UnmarshalJSON of element types) does not reach into the container it is called from; values of type-parameter type are opaque elements",
 	"A2: containers are made by their constructors",
 	"A5: no unsafe, cgo, assembly, go:linkname or reflect writes in library packages (asserted by scan on every run)",
+}
+
+// safeRule runs a rule; an analyser panic (an SSA / term shape the rule did not foresee) is turned into an UNDECIDED
+// obligation — the clause could not be established on this code — so that the check fails with a VIOLATION line that
+// names the rule instead of dying without a verdict.
+func safeRule(name string, c *Ctx, f func(*Ctx) *RuleResult) (res *RuleResult) {
+	defer func() {
+		if x := recover(); x != nil {
+			buf := make([]byte, 4096)
+			n := runtime.Stack(buf, false)
+			stack := string(buf[:n])
+			// keep the first frames below the panic
+			lines := strings.Split(stack, "\n")
+			if len(lines) > 14 {
+				lines = lines[:14]
+			}
+			res = &RuleResult{Rule: name, Title: "rule " + name + " could not be evaluated on this tree"}
+			res.undecided("analyser-panic", "the rule must be able to decide its clause on the code under analysis", "-",
+				fmt.Sprintf("the analyser panicked while evaluating rule %s: %v\n%s", name, x, strings.Join(lines, "\n")))
+		}
+	}()
+	return f(c)
 }
